@@ -656,6 +656,10 @@ func (dp *DataProcessor) applyHavingWithCondition(results []map[string]any) []ma
 		}
 	}
 
+	// Lower the SQL NOT operator to expr-lang's negation, as the WHERE path does:
+	// expr-lang only knows the lower-case "not"
+	processedHaving = lowerNotOperator(processedHaving)
+
 	// Create HAVING condition
 	havingFilter, err := condition.NewExprCondition(processedHaving)
 	if err != nil {
